@@ -155,6 +155,18 @@ func TestC12Close(t *testing.T) {
 		w.lingerAfterFault = rapid.IntRange(0, 2).Draw(t, "linger_after_fault") == 0
 		w.readTO = time.Duration(rapid.SampledFrom([]int{0, 0, 300, 1000, 1500}).Draw(t, "read_timeout_ms")) * time.Millisecond
 		w.apHB = rapid.Bool().Draw(t, "ardupilot_heartbeats")
+		// two rare combinations are put together on purpose now and then (a draw like any other, so replay and
+		// shrinking see it), so that their classes do not depend on luck
+		switch rapid.IntRange(0, 24).Draw(t, "arranged") {
+		case 0: // a gated custom transport whose reader fails while a writer sits in it, Close long afterwards
+			w.eps[0] = &epSpec{kind: "custom", gate: true, customFault: "read-error-persistent", frames: w.eps[0].frames}
+			if w.writers == 0 {
+				w.writers = 1
+			}
+			w.lingerAfterFault = true
+		case 1: // a TCP peer that half-closes
+			w.eps[0] = &epSpec{kind: "tcps", peers: 1, peerGoes: true, frames: 1}
+		}
 		var blocked []string
 		err := watchdog(scenarioLimit, func() error {
 			var e error
